@@ -155,6 +155,28 @@ class E2Check:
                 violations.append(rec)
             else:
                 undecided.append(rec)
+        # functions outside the VC generator's fragment: bounded stand-in (never counted as proved)
+        standins = []
+        seen_u = set()
+        idents_by_top = {}
+        for task, out in pipe["results"]:
+            for top, ident in out.get("idents", {}).items():
+                idents_by_top[(id(out), top)] = ident
+            for (cname, fn, reason) in out["unsupported"]:
+                top = cname.split(".")[0]
+                ident = out["idents"].get(top, "realistic:" + top)
+                if (ident, cname) in seen_u:
+                    continue
+                seen_u.add((ident, cname))
+                nat = self.native_replay(ident, bodies.get(ident), cname if task[0] == "tree" else None,
+                                         task[1] if task[0] == "tree" else None)
+                standins.append({"spec": ident, "class": cname, "function": fn, "reason": reason,
+                                 "bounded_native_search": "no failure" if nat is None else "FAILURE"})
+                if nat is not None:
+                    violations.append({"spec": ident, "body": bodies.get(ident), "class": cname,
+                                       "obligation": f"{cname}.{fn}:runtime-contract(bounded)", "status": "native",
+                                       "why": "bounded stand-in for a function outside the fragment found a failure",
+                                       "counter_model": None, "native": nat})
         # valid specs the generator refuses (C02's boolean clause / C18) are violations of C02
         if self.prop == "C02":
             for idents, err in generr:
@@ -202,6 +224,7 @@ class E2Check:
             "specs_degenerate_skipped": len(pipe["degenerate"]),
             "functions_outside_fragment": [{"class": u[0], "function": u[1], "reason": u[2]} for u in unsupported[:40]],
             "functions_outside_fragment_count": len(unsupported),
+            "bounded_standins": standins[:40],
             "generator_rejections_of_valid_specs": [{"spec": g[0][0], "error": g[1][:200]} for g in generr[:20]],
             "rule": rule,
             "samples": samples or [{"note": "no sample picked"}],
